@@ -919,6 +919,10 @@ class Machine(object):
             if gg is FALSE: continue
             alts.append((gg, f, args, alt)); rest = And(rest, Not(ag))
         for gg, f, args, alt in alts:
+            # deep drop glue (e.g. along a reference cycle whose counts can never reach zero): ask the solver before descending further,
+            # syntactic recursion through "count reached zero" arms that are infeasible would otherwise hit the call-depth limit
+            if len(st.cp) > 24 and s.pruner is not None and not s.pruner.feasible(gg):
+                s.stats['pruned'] = s.stats.get('pruned', 0) + 1; continue
             n = st.clone(gg)
             s.st = n
             s.enter_fn(th, n, f, args, alt)
